@@ -25,7 +25,8 @@ META = {
         "parse_chunk ends in the copy_all fallback test or in _parse_copyall, "
         "the chunker produces at least one block (its helpers run only on a "
         "non-empty match list), config keyword dicts name real parameters."
-        ' Also: definite assignment of every local in the parser package (one accepted loop-witness idiom), staged optional components are only formatted, raise sites are conditional (guards incl. early-exit clauses).'),
+        ' Also: definite assignment of every local in the parser package (one accepted loop-witness idiom), staged optional components are only formatted, raise sites are conditional (guards incl. early-exit clauses).'
+        " Round 7: TABLE[key] with a key computed from a regex group finds a key for every enumerated member of the group's language; every consumed section/lot reference registers a number (callers index [0]); decompiled config text consists of typed settings only; re-raising the same exception type is not a new exception."),
     'assumptions': [
         "methods of str/list/dict on well-typed receivers do not raise; re does not raise on valid patterns; recursion depth",
     ],
